@@ -12,6 +12,7 @@ at the top-level directory.
 #include <stdio.h>
 #include <stdlib.h>
 #include "slu_mt_zdefs.h"
+#include "slu_mt_verif.h"
 
 #define PRINT_SPIN_TIME(where)  { \
   if ( t2 > 0.001 ) { \
@@ -268,6 +269,7 @@ if (jcol == BADPAN)
            contains column "kcol" */
 	ksupno = supno[kcol];
 	fsupc = kcol;
+	SLU_VERIF_EV("Wait", pnum, kcol, ksupno);
 
 #if ( DEBUGlevel>=2 )
 	/*if (jcol >= LOCOL && jcol <= HICOL)    */
@@ -281,6 +283,7 @@ if (jcol == BADPAN)
 	do {
 	    krep = SUPER_REP( ksupno );
 	    kcol = etree[kcol];
+	    SLU_VERIF_EV("Climb", pnum, krep, kcol);
 	    if ( kcol >= jcol ) break;
 	    if ( pxgstrf_shared->spin_locks[kcol] ) {
 #ifdef PROFILE
@@ -300,6 +303,7 @@ if (jcol == BADPAN)
 	    }
 
 	    dadsupno = supno[kcol];
+	    SLU_VERIF_EV("ClimbWait", pnum, kcol, dadsupno);
 
 #if ( DEBUGlevel>=2 )
 	    /*if (jcol >= LOCOL && jcol <= HICOL)*/
@@ -310,6 +314,7 @@ if ( jcol==BADCOL )
 
 	} while ( dadsupno == ksupno );
 
+	SLU_VERIF_EV("BusyUpdBegin", pnum, fsupc, krep);
 	/* Append the new segment into segrep[*]. After column_bmod(),
 	   copy_to_ucol() will use them. */
 	segrep[*nseg] = krep;
@@ -432,6 +437,7 @@ if (jcol == BADPAN)
 	   pnum, BADROW, dense[dbg_addr+BADROW]);
 #endif
 	
+	SLU_VERIF_EV("BusyUpdEnd", pnum, fsupc, krep);
 	/* Go to the parent of "krep" */
 	kcol = etree[krep];
 	
